@@ -59,6 +59,10 @@ func IsPrimitive(input any) bool {
 	}
 }
 
+// maxDecimalExponent bounds the exponent of a FHIR decimal element that is
+// taken as a System Decimal.
+const maxDecimalExponent = 4096
+
 // From converts primitive FHIR types to System types.
 // Returns the input if already a System type, and an error
 // if the input is not convertible.
@@ -96,6 +100,11 @@ func From(input any) (Any, error) {
 		value, err := decimal.NewFromString(v.Value)
 		if err != nil {
 			return nil, err
+		}
+		// FHIR allows an exponent, but a value such as 1e999999999 makes every
+		// later operation materialise that many digits.
+		if exp := value.Exponent(); exp > maxDecimalExponent || exp < -maxDecimalExponent {
+			return nil, fmt.Errorf("%w: decimal exponent %d out of range", ErrCantBeCast, exp)
 		}
 		return Decimal(value), nil
 	case *dtpb.Date:
